@@ -38,8 +38,8 @@ void harness(void)
     v1017 = 100;                                   /* heartbeat producer 100 ms */
     V1016(0).Time = 50; V1016(0).NodeId = 9;       /* consumer monitors node 9  */
     V1016(1).Time = 0;  V1016(1).NodeId = 0;
-    v1400_1[0] = 0x200; v1400_2[0] = 254; v1600_0[0] = 1; v1600[0][0] = CO_LINK(0x2100, 0, 8);
-    v1800_1[0] = 0x40000180; v1800_2[0] = 254; v1A00_0[0] = 1; v1A00[0][0] = CO_LINK(0x2103, 0, 8);
+    V1400_1(0) = 0x200; V1400_2(0) = 254; V1600_0(0) = 1; V1600(0, 0) = CO_LINK(0x2100, 0, 8);
+    V1800_1(0) = 0x40000180; V1800_2(0) = 254; V1A00_0(0) = 1; V1A00(0, 0) = CO_LINK(0x2103, 0, 8);
     od_emcy_tbl[0].Reg = 1; od_emcy_tbl[0].Code = 0x2310;
     app.b = ND_U8(); app.ab = ND_U8();
     node_init();
